@@ -146,12 +146,22 @@ def _module_key(key):
     return 'mod=%s;%s' % (mod, rest)
 
 
+def _norm_key(key):
+    """drop the roots that only say how a value was carried (through a tuple / struct / Option aggregate): `match (a, b) { (_, Some(i)) => v[i] }`
+    and `let i = match b { Some(i) => i, .. }; v[i]` index with the same value"""
+    import re as _re
+    def _tok(t):
+        # positional fields (tuple / Option payload positions) are carrying structure too: param2.0 ~ param2.
+        return _re.sub(r'^((?:param\d+|local)\.)[0-9.]*$', r'\1', t)
+    return _re.sub(r'\[([^\]]*)\]', lambda m: '[' + ','.join(sorted({_tok(t) for t in m.group(1).split(',') if not t.startswith('agg:')})) + ']', key)
+
+
 def _table_get(table, key):
     if key in table:
         return table[key]
-    mk = _module_key(key)
+    mk = _norm_key(_module_key(key))
     for k, v in table.items():
-        if _module_key(k) == mk:
+        if _norm_key(_module_key(k)) == mk:
             return v
     return None
 
